@@ -197,8 +197,8 @@ PROPS = {
         "reachability); abstract interpretation over the sign domain",
     },
     "C03": {
-        "clauses": [fam("Div", "Rem"), signed("Div", "Rem"), both(r3.check_div_guards), r3.check_checked_div, r3.check_division_sites, r5check.check_arithmetic({"Div", "Rem"}, 30), r5check.check_division_methods, count_ok("biguint/division.rs", "bigint/division.rs", floor=90), r1.check_biguint_normal_form, selftest("R2-count-narrowed"), r3.check_panic_site_table, r3.check_operand_overflow, selftest("R3c-operand-overflow", "R3c-operand-overflow-abs"), _debug_effects],
-        "not_decided": "Knuth algorithm D (trial digit, add-back), normalisation shifts, the single-digit division loops",
+        "clauses": [fam("Div", "Rem"), signed("Div", "Rem"), both(r3.check_div_guards), r3.check_checked_div, r3.check_division_sites, r5check.check_arithmetic({"Div", "Rem"}, 30), r5check.check_division_methods, count_ok("biguint/division.rs", "bigint/division.rs", floor=90), r1.check_biguint_normal_form, selftest("R2-count-narrowed"), r3.check_panic_site_table, r3.check_operand_overflow, selftest("R3c-operand-overflow", "R3c-operand-overflow-abs"), _debug_effects, r3.check_division_scaling],
+        "not_decided": "Knuth algorithm D (trial digit, add-back), the arithmetic of the normalisation shift (only the balance of << on the dividend and >> on the remainder around div_rem_core is decided), the single-digit division loops",
         "level_text": "Decides for every input: each of the ~390 division-family functions either tests its divisor for zero with a release-mode panic before any division "
         "work or forwards the divisor to another division function; the 9 checked division functions return None on the zero edge and reach a division only "
         "behind the non-zero edge; all Div/Rem operator forms forward with operands in order; every internal division call site divides by a provably non-zero "
@@ -206,7 +206,7 @@ PROPS = {
         "div_euclid, rem_euclid, div_ceil and the checked forms) return the mathematically defined quotient/remainder terms in every sign/zero/remainder case "
         "(abstract interpretation, polynomial normal form).",
         "technique": "guard-or-forward CFG dominance analysis over the division family in dev and release; divisor non-zero provenance at call sites; abstract "
-        "interpretation over the sign domain with polynomial quotient/remainder terms compared with the definitions",
+        "interpretation over the sign domain with polynomial quotient/remainder terms compared with the definitions; interprocedural def-use count of scaling shifts around the long-division core",
     },
     "C05": {
         "clauses": [guards("modulus", "exponent"), r3.check_parity_dispatch, r3.check_residue_complement, r3.check_division_sites, r3.check_add2_carry_used, both(r3.check_underflow_asserts), r1.check_biguint_normal_form, r5check.check_modular, count_ok("biguint/monty.rs", "biguint/power.rs", "bigint/power.rs", "biguint.rs", "bigint.rs", floor=100), both(r11.check_montgomery_operand_lengths), both(r11.check_montgomery_result_length), selftest("R2-count-narrowed"), r3.check_panic_site_table],
@@ -234,14 +234,14 @@ PROPS = {
     },
     "C07": {
         "clauses": [guards("shift"), fam("Shl", "Shr", "BitAnd", "BitOr", "BitXor"), r5check.check_helpers, r5check.check_shifts, r5check.check_bitops, r9.check_carry_exits, selftest("R9-carry-exit"), count_ok("biguint/shift.rs", "bigint/shift.rs", "biguint/bits.rs", "bigint/bits.rs", "biguint.rs", "bigint.rs", floor=100), r1.check_biguint_normal_form, selftest("R2-count-narrowed"), r3.check_panic_site_table, r3.check_shift_amount_range, selftest("R3c-shift-range")],
-        "not_decided": "running two's-complement carries and result lengths inside the nine bit helpers, intra-digit shift arithmetic, bit queries (bit, trailing_zeros, "
+        "not_decided": "running two's-complement carries and result lengths inside the nine bit helpers (decided only: a carry loop never leaves early while a carry it threads is unexamined), intra-digit shift arithmetic, bit queries (bit, trailing_zeros, "
         "count_ones) and set_bit's digit arithmetic",
         "level_text": "Decides: the negative-shift panic precedes everything else in biguint_shl/biguint_shr in release builds (comparison against T::zero() on the shift "
         "amount); every shift/bit operator form is a verified forwarder or a reviewed implementation; for all 72 BigInt shift leaves the result is sign * (|a| "
         "<< k) resp. floor semantics via shr_round_down (interpreted, including the default for amounts that do not fit u64) in every sign case; the BigInt "
         "bit-operator leaves give the result the sign that the operator yields on the operands' sign bits, handle zero operands and return canonical values.",
         "technique": "CFG dominance of the negative-shift guard (dev and release); operator forwarder classification; abstract interpretation over the sign domain of all "
-        "shift leaves and the bit-operator leaves",
+        "shift leaves and the bit-operator leaves; natural-loop exit analysis with forward taint from the threaded carries (carry loops)",
     },
     "C04": {
         "clauses": [r1.check_closed_world, r1.check_biguint_normal_form, r1.check_normalize_body, r7.check_serde_tables, r9.check_eq_ord_hash, r9.check_sign_readers, r5check.check_helpers, r5check.check_constructors, r5check.check_shifts, r1.check_no_constant_cut, selftest("R1-constant-cut")],
@@ -276,7 +276,7 @@ PROPS = {
         "technique": "interprocedural field read-set analysis over MIR (necessity rule)",
     },
     "C10": {
-        "clauses": [_c10_forwarders, _c10_signed, _c10_folds, _no_narrowing, r3.check_panic_site_table, both(r3.check_underflow_asserts), r3.check_add2_carry_used, r9.check_carry_exits, r5check.check_arithmetic(None, 85), r5check.check_powers, r5check.check_upow, r3.check_operand_overflow, r5check.check_shifts, r5check.check_bitops, r5check.check_division_methods, r5check.check_roots, r5check.check_modular, r1.check_no_constant_cut, selftest("R2-operand-narrowed", "R3c-operand-overflow", "R3c-operand-overflow-abs", "R1-constant-cut", "R3c-digit-step"), both(r3.check_div_guards), r3.check_digit_step_checked, r1.check_biguint_normal_form],
+        "clauses": [_c10_forwarders, _c10_signed, _c10_folds, _no_narrowing, r3.check_panic_site_table, both(r3.check_underflow_asserts), r3.check_add2_carry_used, r9.check_carry_exits, r3.check_division_scaling, r5check.check_arithmetic(None, 85), r5check.check_powers, r5check.check_upow, r3.check_operand_overflow, r5check.check_shifts, r5check.check_bitops, r5check.check_division_methods, r5check.check_roots, r5check.check_modular, r1.check_no_constant_cut, selftest("R2-operand-narrowed", "R3c-operand-overflow", "R3c-operand-overflow-abs", "R1-constant-cut", "R3c-digit-step"), both(r3.check_div_guards), r3.check_digit_step_checked, r1.check_biguint_normal_form],
         "not_decided": "digit splitting/padding inside the unsigned scalar leaves and the digit arithmetic of the leaf implementations; an operator impl that is "
         "neither a forwarder nor in the reviewed table, and a signed leaf whose body leaves the interpreter's language, are listed as undecided (notes), not shown",
         "level_text": "Every one of the ~1286 operator impl bodies is classified from its MIR: ~970 are proven pure forwarders (operands reach the callee in order - swapped "
